@@ -106,6 +106,11 @@ def run(ctx):
     for c, args in CLI.items():
         a = [x if x != "@OUT" else "/dev/full" for x in args]
         cvecs.append({"id": "devfull-" + c, "fam": "cli", "sig": c.split("-")[0], "files": FILES, "args": a, "reps": 1})
+    nq = dict(FILES)
+    nq["q0.csv"] = {"text": "query,SNPs,ambiguities,SNPcount,ambcount\n"}
+    for tab in ([], ["--table"]):
+        cvecs.append({"id": "devfull-toprank-noqueries" + ("-table" if tab else ""), "fam": "cli", "sig": "toprank", "files": nq, "reps": 1,
+                      "args": ["updown", "topranking", "-q", "@q0.csv", "-t", "@m.fasta", "-r", "@ref.fa", "--size-total", "4"] + tab + ["-o", "/dev/full"]})
     # toPairAlign writes by itself: stdout and one file per query
     topa = ["sam", "toPairAlign", "-s", "@in.sam", "-r", "@ref.fa"]
     kmax = 12 if quick else 12
